@@ -648,7 +648,7 @@ static int ec_insert(char *loc, char *cmd, char *arg, char *txt)
 	int n;
 	if (ex_region(loc, &beg, &end) && (beg != 0 || end != 0))
 		return 1;
-	if (cmd[0] == 'a')
+	if (cmd[0] == 'a' && end > 0)	/* 0a appends before the first line */
 		if (beg + 1 <= lbuf_len(xb))
 			beg++;
 	if (cmd[0] != 'c')
